@@ -209,7 +209,7 @@ func C09(e *Env) {
 	})
 	// random trees with random op sequences
 	r := e.Rng(9)
-	nSeq := e.Pick(200, 5000)
+	nSeq := e.Pick(1000, 20000)
 	type rt struct {
 		name string
 		ps3  bool
